@@ -227,3 +227,11 @@ Definition ohdr_v1_witness : ohdr :=
   {| oh_version := 1; oh_flags := 0; oh_refcount := 1;
      oh_msgs := [ {| hm_type := 17; hm_data := le 8 1000 ++ le 8 2000 |};
                   {| hm_type := 1; hm_data := [1; 1; 0; 0; 0; 0; 0; 0] ++ le 8 5 |} ] |}.
+
+(* well-formed version 1 headers: 16-bit message types, no continuation messages, non-empty data of less
+   than 64 KiB per message, at most 65535 messages, a 32-bit reference count and message block *)
+Definition wf_msg_v1 (m : hmsg) : bool :=
+  (hm_type m <? 65536) && negb (hm_type m =? MSG_CONT) && (1 <=? blen (hm_data m)) && (blen (hm_data m) <? 65536).
+Definition wf_ohdr_v1 (x : ohdr) : bool :=
+  (oh_version x =? 1) && (oh_refcount x <? 4294967296) && (nmsgs (oh_msgs x) <=? 65535) &&
+  (msgs_size_v1 (oh_msgs x) <? 4294967296) && forallb wf_msg_v1 (oh_msgs x).
